@@ -64,6 +64,10 @@ def req_pass(rep, fn, label, pred, consumed=True, want_args=None):
     return sites
 
 
+VOCAB = ("decode_expression", "decode_node", "close", "read_natural", "finalize_types", "is_shared_as", "with_context", "convert",
+         "set_arrow_to_program", "from_bits", "read_bit", "read_u2", "read_u8")
+
+
 def run(ctx, rep):
     F = ctx.facts("full")
     rep.rule("C02.must", "canonicity checks lie on every success path and their verdicts are consumed")
@@ -73,12 +77,14 @@ def run(ctx, rep):
 
     # ------------------------------------------------------------------ must
     cd = F.fn(CONSTRUCT_DECODE)
+    cd = F.inlined(cd, VOCAB) if cd is not None else None   # private same-file helpers are spliced in
     if cd is None:
         rep.anchor("C02.must", CONSTRUCT_DECODE)
     else:
         req_pass(rep, cd, "decode_expression", named("decode_expression"))
         req_pass(rep, cd, "BitIter::close", lambda cs: cs.callee == CLOSE)
     cm = F.fn(COMMIT_DECODE)
+    cm = F.inlined(cm, VOCAB) if cm is not None else None   # private same-file helpers are spliced in
     if cm is None:
         rep.anchor("C02.must", COMMIT_DECODE)
     else:
@@ -96,11 +102,12 @@ def run(ctx, rep):
                     rep.ok("C02.must", "CommitNode::decode: not maximally shared → Err", None)
                 else:
                     rep.violation("C02.must", "CommitNode::decode:sharing-branch", "the false verdict of is_shared_as does not lead to Err", cs.where())
-        for c in F.closures_of(cm):
+        for c in [F.inlined(c_, VOCAB) for c_ in F.closures_of(cm)]:
             req_pass(rep, c, "decode_expression", flow.wrapper_pred(F, named("decode_expression")))
             req_pass(rep, c, "BitIter::close", flow.wrapper_pred(F, lambda cs: cs.callee == CLOSE))
             req_pass(rep, c, "finalize_types", named("finalize_types"))
     rd = F.fn(REDEEM_DECODE)
+    rd = F.inlined(rd, VOCAB) if rd is not None else None   # private same-file helpers are spliced in
     if rd is None:
         rep.anchor("C02.must", REDEEM_DECODE)
     else:
@@ -155,6 +162,7 @@ def run(ctx, rep):
                     rep.violation("C02.must", "RedeemNode::decode:order", "convert is not preceded by set_arrow_to_program on every path", cv[0].where())
 
     de = F.fn(DEC + "decode_expression")
+    de = F.inlined(de, VOCAB) if de is not None else None   # private same-file helpers are spliced in
     if de is None:
         rep.anchor("C02.must", DEC + "decode_expression")
     else:
@@ -245,6 +253,7 @@ def run(ctx, rep):
 
     # ------------------------------------------------------------------ bound
     dn = F.fn(DEC + "decode_node")
+    dn = F.inlined(dn, VOCAB) if dn is not None else None   # private same-file helpers are spliced in
     if dn is None:
         rep.anchor("C02.bound", DEC + "decode_node")
     else:
